@@ -1,0 +1,18 @@
+//go:build verif
+
+package chain
+
+import (
+	"github.com/zenon-network/go-zenon/chain/nom"
+)
+
+// Verification-only exports (build tag verif). Read-only wrappers around unexported
+// functions so an external harness can compare them with a formal model.
+
+func HigherPriorityVerif(a, b *nom.AccountBlock) error {
+	return higherPriority(a, b)
+}
+
+func FilterBlocksToCommitVerif(blocks []*nom.AccountBlock) []*nom.AccountBlock {
+	return newAccountPool(nil).filterBlocksToCommit(blocks)
+}
